@@ -17,13 +17,21 @@ def lq(name, rx_, **kw):
              spec=SPEC, harness='h_lq_' + name, enforce='lq_' + name, defines=DEFS, under_contract=['cocls::limited_queue<int>::' + name])
     d.update(kw); return d
 REPLAY = dict(src='c10_dup.cpp', mode='c10', flags=['-fno-access-control'])
-UNITS = [
-    lq('ctor', '^' + esc(LQT) + r'::limited_queue\(unsigned long\)$'),
-    lq('push', r'^cocls::future<void> cocls::limited_queue<int, .*>::push<int>\(int&&\)$', replay=REPLAY),
-    lq('pop', '^' + esc(LQT) + r'::pop\(\)$'),
-    lq('unblock_push', '^' + esc(LQT) + r'::unblock_push\(std::__exception_ptr::exception_ptr\)$'),
-    lq('dtor', '^' + esc(LQT) + r'::~limited_queue\(\)$'),
-    lq('size', '^' + esc(QIT) + r'::size\(\)$'),
-    lq('empty', '^' + esc(QIT) + r'::empty\(\)$'),
+RX = {
+    'ctor': '^' + esc(LQT) + r'::limited_queue\(unsigned long\)$',
+    'push': r'^cocls::future<void> cocls::limited_queue<int, .*>::push<int>\(int&&\)$',
+    'pop': '^' + esc(LQT) + r'::pop\(\)$',
+    'unblock_push': '^' + esc(LQT) + r'::unblock_push\(std::__exception_ptr::exception_ptr\)$',
+    'dtor': '^' + esc(LQT) + r'::~limited_queue\(\)$',
+    'size': '^' + esc(QIT) + r'::size\(\)$',
+    'empty': '^' + esc(QIT) + r'::empty\(\)$',
+}
+LEMMA_OPS = ['ctor', 'push', 'pop', 'unblock_push', 'size', 'empty']
+UNITS = [lq(n, RX[n], **({'replay': REPLAY} if n == 'push' else {})) for n in ('ctor', 'push', 'pop', 'unblock_push', 'dtor', 'size', 'empty')] + [
+    # history lemma over the contracts: every call is replaced by its contract, unbounded loop with invariant (DESIGN 3.6)
+    dict(name='lq_lemma', kind='lemma', driver='c10_lqueue.cpp', roots=[RX[n] for n in LEMMA_OPS], names={'lq_' + n: RX[n] for n in LEMMA_OPS}, types=TYPES, globals=GLOBALS,
+         boundary=BOUNDARY, lib=LIBS, spec=['C10/lq_spec.h', 'C10/h_lemma.c'], harness='h_lq_lemma', enforce='lq_lemma', replace=['lq_' + n for n in LEMMA_OPS],
+         loop_contracts=True, defines=DEFS + ['CV_HAS_lq_lemma 1'], timeout=900, object_bits=10,
+         under_contract=['history lemma over the contracts of cocls::limited_queue<int> (ctor, push, pop, unblock_push, size, empty)']),
 ]
 META = dict(level='proof', level_text='TODO', level_note='TODO', technique='TODO', trusted_base=[], assumptions=[], explanation='')
